@@ -2,47 +2,72 @@
 from __future__ import annotations
 
 import itertools
+import json
 
 from harness.core import sp
 from harness.core.trees import Universe, get_path
 
 PID = "C03"
-RULE = ("a case is a forest: dataclasses over the name alphabet {x,y,a,b,a_b,n} (leaf int fields, nested members, the same "
-        "class reused as sibling members / at several depths / at several destinations, field names equal to destination "
-        "names) registered at 1-3 destinations with optional user prefixes, under AUTO / EXPLICIT / NONE. Observed on the "
-        "real parser: error class of setup, or for every field the set of its option strings, then one real parse per "
-        "option string (which leaves changed). A small slice (<= 2 classes) is enumerated exhaustively in both tiers; "
-        "random larger forests on top. Non-trivial = at least one clash exists (two fields share an initial option "
-        "string); distinct by canonical JSON.")
-ASSUMPTIONS = ["argparse exact-match lookup of option strings", "dest names and field names are dot-free identifiers"]
+RULE = ("a case is a forest: dataclasses over the name alphabet {x,y,a,b,a_b,n,nox} (leaf int or bool fields, aliases, nested "
+        "members, the same class reused as sibling members / at several depths / at several destinations, field names equal "
+        "to destination names) registered at 1-3 destinations with optional user prefixes (plain 'p_' or dotted 'a.'), under "
+        "AUTO / EXPLICIT / NONE, ~30% of the random forests under a non-default naming configuration (dash variant x "
+        "FLAT/NESTED/BOTH x nested mode). Observed on the real parser: the flat field-wrapper list the resolver receives "
+        "(order, parent dest, nesting level, initial prefix and option strings), the number of fix rounds, the error class of "
+        "setup, or for every field the set of its option strings (bool leaves: positive and negative strings), then one real "
+        "parse per option string (which leaves changed). Enumerated slice, both tiers: <= 2 classes (L with <= 2 leaves incl. "
+        "an aliased and a bool leaf, P with <= 2 members of type L), depth <= 2, 1-3 registrations; thorough adds depth 3 (a "
+        "class Q holding a member of type P). Directed: a class of 49 / 50 / 51 leaves registered twice under AUTO (the 50-"
+        "round limit: ok / ConflictResolutionError / ConflictResolutionError). Random larger forests on top. Non-trivial = at "
+        "least one clash exists (two fields share an initial option string); distinct by canonical JSON. ORACLE CLAUSES taken "
+        "from the property text: total, unique, exact-leaf, bare, suffix, none-iff. EXTRA clauses (not in the text, kept "
+        "because they caught seeded defects; each is a consistency requirement, not a new promise): 'front-end' — "
+        "simple_parsing.parse()/parse_known_args() with the same settings resolve like the ArgumentParser; 'no-clash-ok' — "
+        "AUTO/EXPLICIT set-up does not fail when no two fields share an option string.")
+ASSUMPTIONS = ["argparse exact-match lookup of option strings", "dest names and field names are dot-free identifiers",
+               "top-level destinations are pairwise distinct and every wrapper is registered once (the duplicate-wrapper / "
+               "duplicate-dest guards at conflicts.py:75,79,142 — RuntimeError / assert — are not modelled and not generated)",
+               "bool leaves use the default negative prefix '--no' (no negative_option / negative_prefix overrides) and are not aliased so "
+               "that one of their own names is the negative flag of another (`nox: bool` aliased `--x`)"]
 TRUSTED = ["stdlib argparse"]
 EXHAUSTIVE = {"quick": False, "thorough": False}
 MANIFEST = {
     "text": ("Proof (partial: AUTO/EXPLICIT/NONE resolution loop; ALWAYS_MERGE belongs to C11). Lean theorems over the "
-             "model of ConflictResolver: if resolution returns, no option string has two owners (exit condition of the "
-             "loop, for any forest, any mode, any user prefixes); resolution only rewrites prefixes (names, destinations, "
-             "aliases and order are untouched, so every option string keeps addressing its own field's destination); a "
-             "field that is not an owner of the conflicting option is not touched by a round; NONE raises exactly when a "
-             "clash exists; AUTO prefixes stay dotted suffixes of the parent destination (invariant over rounds, without "
-             "user prefixes); resolution is total: it returns or raises ConflictResolutionError, never another error "
-             "(c03_total, full since fix 00d3779 for equal user prefixes under AUTO). Known finding kept visible: a field "
-             "named h/help collides with the built-in help option and setup fails with argparse.ArgumentError (witness "
-             "c03_setup_total_witness, partial theorem c03_setup_total_partial for option sets that avoid -h/--help). Model tied to the code by comparing final option-string sets / "
-             "error class on generated forests; the property's clauses (unique owner, exactly-one-leaf effect by a real "
-             "parse per option, bare name, dotted suffix, NONE iff clash) are evaluated on the real parser."),
-    "note": ("Trusted: Lean kernel + standard axioms; argparse lookup; harness incl. the computation of the flat field "
-             "list from the class spec. Modelled not verified: conflicts.py:65-315, field_wrapper.py:565-655. The order "
-             "of equal-length option strings inside one field (a Python set) is modelled by its canonical order."),
-    "technique": "Lean 4 loop-exit/invariant theorems over resolution rounds + differential check on real parsers",
+             "model of ConflictResolver, each for any forest and any number of rounds: if resolution returns, every offered "
+             "option string has exactly one owner and that owner is the field that generated it (c03_unique, "
+             "c03_exactly_one, c03_owner_eq: loop exit condition); resolution only rewrites prefixes (c03_frame); a round "
+             "touches only owners of the conflicting option (c03_round_untouched) and, under FLAT generation, a field whose "
+             "option strings are dot-free and initially unshared is never an owner in any round and keeps its bare name "
+             "(c03_bare, via: every rewritten prefix contains a dot, c03_stepDot); under AUTO every prefix stays empty or "
+             "'.'-joined last words of the parent destination + '.' (c03_suffix_auto, invariant SufInv over rounds), under "
+             "EXPLICIT it is empty or the full parent destination (c03_full_explicit); a successful AUTO round strictly "
+             "lengthens prefixes (autoOne_progress, fixAuto_progress, c03_auto_round_progress), with decide-examples of "
+             "forests needing 3 rounds / 1 round; NONE raises exactly when a clash exists (c03_none_iff); resolution is "
+             "total: it returns or raises ConflictResolutionError (c03_total, full since fix 00d3779). Known findings kept "
+             "visible: a field named h/help collides with the built-in help option (c03_setup_total_witness / "
+             "c03_setup_total_partial), and the --no<x> flags of a bool leaf are added after resolution and can collide with "
+             "a field named no<x> (c03_neg_clash_witness / c03_neg_total_partial); both surface as argparse.ArgumentError. "
+             "NOT stated in Lean: what parsing an option string does — 'passing it changes that leaf and nothing else' is "
+             "evaluated on the real parser only (one parse per option string). Model tied to the code by comparing the real "
+             "flat wrapper list (order, parent dest, level, prefix) with the model's input and the final option-string sets / "
+             "error class with its output."),
+    "note": ("Trusted: Lean kernel + standard axioms; argparse lookup; harness. Modelled not verified: conflicts.py:65-315, "
+             "field_wrapper.py:565-655. The order of equal-length option strings inside one field (a Python set) is modelled "
+             "by its canonical order. The negative strings of bool leaves are not part of Model/Conflicts (local definitions "
+             "in Props/C03.lean, observed on the real parser, cases with a negative-flag collision are oracle-only)."),
+    "technique": "Lean 4 loop-exit/invariant/progress theorems over resolution rounds + differential check on real parsers",
     "design_ref": "DESIGN.md section 5, C03",
 }
 
-NAMES = ["x", "y", "a", "b", "a_b", "n"]
+NAMES = ["x", "y", "a", "b", "a_b", "n", "nox"]
 DESTS = ["a", "b", "x", "cfg"]
+DEFAULT_CFG = {"dash": "UNDERSCORE", "gen": "FLAT", "nest": "DEFAULT"}
+PROBE = {"int": "7", "bool": "false"}
+PROBED = {"int": 7, "bool": False}
 
 
-def leaf(n, al=()):
-    return {"name": n, "ty": {"k": "int"}, "alias": list(al)}
+def leaf(n, al=(), kind="int"):
+    return {"name": n, "ty": {"k": kind}, "alias": list(al)}
 
 
 def mem(n, c):
@@ -56,40 +81,102 @@ def finish(classes):
             if f["ty"]["k"] == "int":
                 f["default"] = {"kind": "value", "v": {"t": "int", "v": str(100 + i)}}
                 i += 1
+            elif f["ty"]["k"] == "bool":
+                # default True: both `--x false` and the negative flag `--nox` change the leaf
+                f["default"] = {"kind": "value", "v": {"t": "bool", "v": True}}
     return classes
 
 
 def case_of(classes, regs, mode, cfg=None):
     return {"op": "conflicts.resolve", "case": {"classes": finish([dict(c, fields=[dict(f) for f in c["fields"]]) for c in classes]),
-                                                 "regs": regs, "mode": mode,
-                                                 "cfg": cfg or {"dash": "UNDERSCORE", "gen": "FLAT", "nest": "DEFAULT"}}}
+                                                 "regs": regs, "mode": mode, "cfg": dict(cfg or DEFAULT_CFG)}}
 
 
-def exhaustive_slice():
-    leafsets = [["x"], ["y"], ["x", "y"], ["a"]]
-    for lf in leafsets:
-        L = {"name": "L", "fields": [leaf(n) for n in lf]}
+MODES = ("AUTO", "EXPLICIT", "NONE")
+
+
+def exhaustive_slice(tier):
+    seen = set()
+
+    def emit(classes, regs, mode, cfg=None):
+        c = case_of(classes, regs, mode, cfg)
+        key = json.dumps(c, sort_keys=True)
+        if key in seen:
+            return
+        seen.add(key)
+        yield c
+
+    full = [[leaf("x")], [leaf("y")], [leaf("x"), leaf("y")], [leaf("a")]]
+    # an aliased leaf (x also reachable as --y) next to a leaf y; a bool leaf (its --no<x> flags follow the prefix)
+    extra = [[leaf("x", ["--y"])], [leaf("x", ["--y"]), leaf("y")], [leaf("x", kind="bool")],
+             [leaf("x", kind="bool"), leaf("y")]]
+    for li, lf in enumerate(full + extra):
+        reduced = li >= len(full)
+        L = {"name": "L", "fields": lf}
+        own_names = {f["name"] for f in lf}
         # (i) L alone at 1..3 destinations
-        for nreg in (1, 2, 3):
+        for nreg in ((1, 2) if reduced else (1, 2, 3)):
             for dests in itertools.permutations(["a", "b", "x"], nreg):
-                for pfx in ([None] * nreg, ["p_"] + [None] * (nreg - 1), ["p_"] * nreg, ["p_", "q_", "r_"][:nreg]):
+                pfxs = ([None] * nreg, ["p_"] + [None] * (nreg - 1), ["p_"] * nreg, ["p_", "q_", "r_"][:nreg])
+                for pfx in (pfxs[:2] if reduced else pfxs):
                     regs = [{"cls": "L", "dest": d, "prefix": p or ""} for d, p in zip(dests, pfx)]
-                    for mode in ("AUTO", "EXPLICIT", "NONE"):
-                        yield case_of([L], regs, mode)
+                    for mode in MODES:
+                        yield from emit([L], regs, mode)
         # (ii) parent with one or two members of type L, optional own leaf
-        for own in (None, "x", "y"):
-            for members in (["a"], ["x"], ["a", "b"], ["a", "x"]):
+        for own in ((None, "y") if reduced else (None, "x", "y")):
+            for members in ((["a"], ["a", "x"]) if reduced else (["a"], ["x"], ["a", "b"], ["a", "x"])):
                 fields = ([leaf(own)] if own else []) + [mem(m, "L") for m in members]
                 if own in members:
                     continue
                 P = {"name": "P", "fields": fields}
-                for regs in ([{"cls": "P", "dest": "a", "prefix": ""}],
-                             [{"cls": "P", "dest": "a", "prefix": ""}, {"cls": "P", "dest": "b", "prefix": ""}],
-                             [{"cls": "P", "dest": "a", "prefix": ""}, {"cls": "L", "dest": "b", "prefix": ""}],
-                             [{"cls": "L", "dest": "a", "prefix": ""}, {"cls": "P", "dest": "x", "prefix": ""}],
-                             [{"cls": "P", "dest": "x", "prefix": "p_"}, {"cls": "L", "dest": "b", "prefix": ""}]):
-                    for mode in ("AUTO", "EXPLICIT", "NONE"):
-                        yield case_of([L, P], regs, mode)
+                reglists = ([{"cls": "P", "dest": "a", "prefix": ""}],
+                            [{"cls": "P", "dest": "a", "prefix": ""}, {"cls": "P", "dest": "b", "prefix": ""}],
+                            [{"cls": "P", "dest": "a", "prefix": ""}, {"cls": "L", "dest": "b", "prefix": ""}],
+                            [{"cls": "L", "dest": "a", "prefix": ""}, {"cls": "P", "dest": "x", "prefix": ""}],
+                            [{"cls": "P", "dest": "x", "prefix": "p_"}, {"cls": "L", "dest": "b", "prefix": ""}])
+                for regs in (reglists[:3] if reduced else reglists):
+                    for mode in MODES:
+                        yield from emit([L, P], regs, mode)
+                # (iii) thorough: depth 3 — a class Q holding a member of type P (and optionally a leaf / a second member)
+                if tier == "thorough" and not reduced:
+                    for qown in (None, "x", "y"):
+                        for qmem in (["a"], ["b"], ["a", "b"], ["x"]):
+                            if qown in qmem:
+                                continue
+                            Q = {"name": "Q", "fields": ([leaf(qown)] if qown else []) + [mem(m, "P") for m in qmem]}
+                            for regs in ([{"cls": "Q", "dest": "a", "prefix": ""}],
+                                         [{"cls": "Q", "dest": "a", "prefix": ""}, {"cls": "Q", "dest": "b", "prefix": ""}],
+                                         [{"cls": "Q", "dest": "a", "prefix": ""}, {"cls": "P", "dest": "b", "prefix": ""}],
+                                         [{"cls": "L", "dest": "a", "prefix": ""}, {"cls": "Q", "dest": "x", "prefix": ""}]):
+                                for mode in MODES:
+                                    yield from emit([L, P, Q], regs, mode)
+    # every naming configuration on two small forests (reuse at two destinations; a member named like a leaf)
+    L = {"name": "L", "fields": [leaf("x"), leaf("a_b", ["--y"])]}
+    P = {"name": "P", "fields": [leaf("x"), mem("a", "L"), mem("a_b", "L")]}
+    for dash in sp.ALL_DASH:
+        for g in sp.ALL_GEN:
+            for nest in sp.ALL_NEST:
+                cfg = {"dash": dash, "gen": g, "nest": nest}
+                if cfg == DEFAULT_CFG:
+                    continue
+                for mode in MODES:
+                    yield from emit([L], [{"cls": "L", "dest": "a", "prefix": ""}, {"cls": "L", "dest": "b", "prefix": ""}], mode, cfg)
+                    yield from emit([L, P], [{"cls": "P", "dest": "a", "prefix": ""}], mode, cfg)
+    # dotted user prefixes (a prefix that looks like a generated one)
+    L = {"name": "L", "fields": [leaf("x"), leaf("y")]}
+    for pfx in (["a.", ""], ["a.", "a."], ["b.", ""], ["a.", "b."], ["", "a."]):
+        for mode in MODES:
+            yield from emit([L], [{"cls": "L", "dest": d, "prefix": p} for d, p in zip(["a", "b"], pfx)], mode)
+
+
+def limit_cases():
+    """the 50-round limit (conflicts.py:63,107-109): one round per clashing name; the code raises after the 50th fix
+    whether or not a conflict is left. A class with n long-named leaves registered at a and b needs n rounds."""
+    for n in (49, 50, 51):
+        W = {"name": "W", "fields": [leaf(f"f{i:02d}") for i in range(n)]}
+        yield case_of([W], [{"cls": "W", "dest": "a", "prefix": ""}, {"cls": "W", "dest": "b", "prefix": ""}], "AUTO")
+    W = {"name": "W", "fields": [leaf(f"f{i:02d}") for i in range(51)]}
+    yield case_of([W], [{"cls": "W", "dest": "a", "prefix": ""}, {"cls": "W", "dest": "b", "prefix": ""}], "EXPLICIT")
 
 
 def random_forest(rng):
@@ -102,15 +189,18 @@ def random_forest(rng):
             if classes and rng.random() < 0.5:
                 fields.append(mem(nm, rng.choice(classes)["name"]))
             else:
-                al = [rng.choice(["-q", "zz", "--x", "y", "--a_b"])] if rng.random() < 0.15 else []
-                fields.append(leaf(nm, al))
+                al = [rng.choice(["-q", "zz", "--x", "y", "--a_b"])] if rng.random() < 0.2 else []
+                kind = "bool" if rng.random() < 0.2 else "int"
+                if kind == "bool" and any(nm == "no" + a.lstrip("-") for a in al):
+                    al = []    # a bool leaf `nox` aliased `--x` negates itself (`--nox` = its name AND x's negative flag): C12's business
+                fields.append(leaf(nm, al, kind))
         classes.append({"name": f"K{ci}", "fields": fields})
     nreg = rng.choice([1, 2, 2, 3])
     dests = rng.sample(DESTS, nreg)
     regs = []
     for d in dests:
         cls = rng.choice(classes[-2:] if rng.random() < 0.7 else classes)["name"]
-        regs.append({"cls": cls, "dest": d, "prefix": rng.choice(["", "", "", "p_", "q_"])})
+        regs.append({"cls": cls, "dest": d, "prefix": rng.choice(["", "", "", "", "p_", "q_", d + ".", "a."])})
     # keep only reachable classes
     used = set()
 
@@ -125,16 +215,17 @@ def random_forest(rng):
     for r in regs:
         reach(r["cls"])
     classes = [c for c in classes if c["name"] in used]
-    if rng.random() < 0.8:
+    if rng.random() < 0.7:
         cfg = None
     else:
-        cfg = {"dash": rng.choice(sp.ALL_DASH), "gen": rng.choice(["FLAT", "FLAT", "BOTH"]), "nest": rng.choice(sp.ALL_NEST)}
+        cfg = {"dash": rng.choice(sp.ALL_DASH), "gen": rng.choice(["FLAT", "FLAT", "BOTH", "NESTED"]), "nest": rng.choice(sp.ALL_NEST)}
     return case_of(classes, regs, rng.choice(["AUTO", "AUTO", "EXPLICIT", "NONE"]), cfg)
 
 
 def gen(rng, tier):
-    yield from exhaustive_slice()
-    for _ in range(400 if tier == "quick" else 20000):
+    yield from limit_cases()
+    yield from exhaustive_slice(tier)
+    for _ in range(300 if tier == "quick" else 16000):
         yield random_forest(rng)
 
 
@@ -142,16 +233,19 @@ def gen(rng, tier):
 
 
 def field_recs(c):
-    """flat list of field records in `_flatten_wrappers` order (pure function of the case)."""
+    """flat list of field records in `_flatten_wrappers` order (pure function of the case); compared with what the real
+    resolver receives (obs['wrappers']) in project()."""
     cls = {k["name"]: k for k in c["classes"]}
     out = []
 
     def walk(cname, path, level, prefix):
         for f in cls[cname]["fields"]:
             if f["ty"]["k"] != "dc":
+                kind = f["ty"]["k"]
+                dv = f["default"]["v"]["v"]
                 out.append({"name": f["name"], "parent_dest": ".".join(path), "level": level,
                             "aliases": f.get("alias", []), "prefix": prefix, "path": path + [f["name"]],
-                            "default": int(f["default"]["v"]["v"])})
+                            "kind": kind, "default": (int(dv) if kind == "int" else bool(dv))})
         for f in cls[cname]["fields"]:
             if f["ty"]["k"] == "dc":
                 walk(f["ty"]["cls"], path + [f["name"]], level + 1, "")
@@ -171,42 +265,90 @@ def _build(c):
     return parser
 
 
+def _instrument(parser, log):
+    """observe (on this parser object only) what the resolver is given and how many fix rounds it runs"""
+    res = getattr(parser, "_conflict_resolver", None)
+    if res is None:
+        return
+    orig_get = res.get_conflict
+
+    def get_conflict(wrappers):
+        if "first" not in log:
+            fws = []
+            for w in wrappers:
+                fws.extend(w.fields if hasattr(w, "fields") else [w])
+            log["first"] = [{"name": fw.name, "parent_dest": fw.parent.dest, "level": fw.nesting_level,
+                             "aliases": list(fw.aliases), "prefix": fw.prefix, "dest": fw.dest,
+                             "opts": sorted(set(fw.option_strings))} for fw in fws]
+        return orig_get(wrappers)
+
+    res.get_conflict = get_conflict
+    for nm in ("_fix_conflict_auto", "_fix_conflict_explicit"):
+        orig = getattr(res, nm, None)
+        if orig is None:
+            continue
+
+        def wrapped(conflict, _o=orig):
+            log["rounds"] = log.get("rounds", 0) + 1
+            return _o(conflict)
+
+        setattr(res, nm, wrapped)
+
+
 def impl(case):
     c = case["case"]
     recs = field_recs(c)
+    log = {}
 
     def setup():
         p = _build(c)
+        _instrument(p, log)
         p._preprocessing(args=[])
         return p
 
     r = sp.run_outcome(setup)
+    seen = {"wrappers": log.get("first"), "rounds": log.get("rounds", 0)}
     if r["o"] != "ok":
-        return {"o": r["o"], "exc": r.get("exc"), "msg": r.get("msg", "")[:200], "frontends": _frontends(c, recs, [])}
+        return dict(seen, o=r["o"], exc=r.get("exc"), msg=r.get("msg", "")[:200], frontends=_frontends(c, recs, []))
     parser = r["value"]
-    sets = []
+    sets, negs = [], []
     for rec in recs:
         act = sp.action_for_dest(parser, ".".join(rec["path"]))
-        sets.append(sorted(set(act.option_strings)) if act is not None else None)
+        if act is None:
+            sets.append(None)
+            negs.append(None)
+            continue
+        # BooleanOptionalAction registers positives + negatives (in this order); the positives are the field's own names
+        ng = list(getattr(act, "negative_option_strings", None) or [])
+        pos = list(act.option_strings)[: len(act.option_strings) - len(ng)]
+        sets.append(sorted(set(pos)))
+        negs.append(sorted(set(ng)))
     probes = []
-    all_opts = sorted({o for s in sets if s for o in s})
+    kinds = {}
+    for rec, s, ng in zip(recs, sets, negs):
+        for o in s or []:
+            kinds.setdefault(o, rec["kind"])
+        for o in ng or []:
+            kinds.setdefault(o, "neg")
+    all_opts = sorted(kinds)
     if len(all_opts) <= 40:
         # one real parse per option string (a fresh parser each); large forests: an evenly spaced sample of 16
         probe_opts = all_opts if len(all_opts) <= 16 else all_opts[:: max(1, len(all_opts) // 16)][:16]
         for opt in probe_opts:
             p2 = _build(c)
-            res = sp.run_outcome(lambda: p2.parse_args([opt, "7"]))
+            argv = [opt] if kinds[opt] == "neg" else [opt, PROBE[kinds[opt]]]
+            res = sp.run_outcome(lambda: p2.parse_args(argv))
             if res["o"] == "ok":
                 ns = res["value"]
                 changed = []
                 for rec in recs:
                     v = get_path(ns, ".".join(rec["path"]))
-                    if v != rec["default"]:
+                    if v != rec["default"] or type(v) is not type(rec["default"]):
                         changed.append([".".join(rec["path"]), v if isinstance(v, int) else repr(v)])
-                probes.append({"opt": opt, "o": "ok", "changed": changed})
+                probes.append({"opt": opt, "argv": argv, "o": "ok", "changed": changed})
             else:
-                probes.append({"opt": opt, "o": res["o"], "code": res.get("code"), "exc": res.get("exc")})
-    return {"o": "ok", "sets": sets, "probes": probes, "frontends": _frontends(c, recs, probes)}
+                probes.append({"opt": opt, "argv": argv, "o": res["o"], "code": res.get("code"), "exc": res.get("exc")})
+    return dict(seen, o="ok", sets=sets, negs=negs, probes=probes, frontends=_frontends(c, recs, probes))
 
 
 def _frontends(c, recs, probes):
@@ -221,7 +363,7 @@ def _frontends(c, recs, probes):
     u = Universe().add_classes(c["classes"])
     cls = u.classes[reg["cls"]]
     ok = [p for p in probes if p["o"] == "ok"]
-    argv = [ok[0]["opt"], "7"] if ok else []
+    argv = list(ok[0]["argv"]) if ok else []
     kw = dict(dest=reg["dest"], nested_mode=sp.NEST[c["cfg"]["nest"]], conflict_resolution=sp.CR[c["mode"]],
               add_option_string_dash_variants=sp.DASH[c["cfg"]["dash"]], argument_generation_mode=sp.GEN[c["cfg"]["gen"]])
     out = []
@@ -230,7 +372,7 @@ def _frontends(c, recs, probes):
         ch = []
         for rec in recs:
             v = get_path(inst, ".".join(rec["path"][1:]))
-            if v != rec["default"]:
+            if v != rec["default"] or type(v) is not type(rec["default"]):
                 ch.append([".".join(rec["path"]), v if isinstance(v, int) else repr(v)])
         return ch
 
@@ -248,22 +390,59 @@ def _frontends(c, recs, probes):
     return out
 
 
+REC_KEYS = ("name", "parent_dest", "level", "aliases", "prefix")
+
+
 def model_case(case, obs):
     c = case["case"]
     return {"cfg": c["cfg"], "mode": c["mode"], "reserved": ["-h", "--help"],
-            "recs": [{k: r[k] for k in ("name", "parent_dest", "level", "aliases", "prefix")} for r in field_recs(c)]}
+            "recs": [{k: r[k] for k in REC_KEYS} for r in field_recs(c)]}
+
+
+def _neg_clash_obs(case, obs):
+    """narrow signature of the open finding C03-neg-clash on an observation: set-up died in add_argument with
+    'conflicting option string(s): …' naming the --no<x> string of a bool leaf x of the case"""
+    if obs.get("o") != "raise" or obs.get("exc") != "ArgumentError":
+        return False
+    msg = obs.get("msg", "")
+    if "conflicting option string" not in msg:
+        return False
+    clashing = [w.strip() for w in msg.split("conflicting option string", 1)[1].lstrip("s").lstrip(":").split(",")]
+    bools, names = set(), set()
+    for k in case["case"]["classes"]:
+        for f in k["fields"]:
+            mine = {f["name"]} | {a.lstrip("-") for a in f.get("alias", [])}
+            names |= mine
+            if f["ty"]["k"] == "bool":
+                bools |= mine
+    for o in clashing:
+        last = o.lstrip("-").split(".")[-1]
+        # … and the case does contain a field (or alias) literally spelled no<x>
+        if last.startswith("no") and last[2:] in bools and last in names:
+            return True
+    return False
+
+
+def skip_model(case, obs):
+    """Model/Conflicts does not know the negative flags of bool leaves: a case that dies on a negative-flag collision
+    (open finding C03-neg-clash) is judged by the oracle only."""
+    return _neg_clash_obs(case, obs)
 
 
 def project(case, obs):
+    # the flat wrapper list the REAL resolver received (order, parent dest, nesting level, aliases, initial prefix) is
+    # compared with the list the model was given (project_model), the outcome with the model's outcome
+    seen = None if obs.get("wrappers") is None else [{k: w[k] for k in REC_KEYS} for w in obs["wrappers"]]
     if obs["o"] == "ok":
-        return {"o": "ok", "sets": obs["sets"]}
-    return {"o": obs["o"], "exc": obs["exc"]}
+        return {"o": "ok", "sets": obs["sets"], "recs": seen}
+    return {"o": obs["o"], "exc": obs["exc"], "recs": seen}
 
 
 def project_model(case, mo):
+    given = [{k: r[k] for k in REC_KEYS} for r in field_recs(case["case"])]
     if mo.get("o") == "ok":
-        return {"o": "ok", "sets": mo["sets"]}
-    return mo
+        return {"o": "ok", "sets": mo["sets"], "recs": given}
+    return dict(mo, recs=given)
 
 
 def initial_names(rec, c):
@@ -275,50 +454,73 @@ def initial_names(rec, c):
 
 
 def default_cfg(c):
-    return c["cfg"] == {"dash": "UNDERSCORE", "gen": "FLAT", "nest": "DEFAULT"}
+    return c["cfg"] == DEFAULT_CFG
 
 
-def clash_exists(c):
-    recs = field_recs(c)
-    for i in range(len(recs)):
-        for j in range(i + 1, len(recs)):
-            if initial_names(recs[i], c) & initial_names(recs[j], c):
+def clash_exists(c, obs=None):
+    """two fields share an initial option string. Default configuration: computed from the case alone (name / alias
+    bodies). Other configurations: from the option strings the real field wrappers report before resolution."""
+    if not default_cfg(c) and (not obs or not obs.get("wrappers")):
+        return None     # unknown: the clash-dependent clauses are skipped
+    if default_cfg(c):
+        recs = field_recs(c)
+        for i in range(len(recs)):
+            for j in range(i + 1, len(recs)):
+                if initial_names(recs[i], c) & initial_names(recs[j], c):
+                    return True
+        return False
+    ws = obs["wrappers"]
+    for i in range(len(ws)):
+        for j in range(i + 1, len(ws)):
+            if set(ws[i]["opts"]) & set(ws[j]["opts"]):
                 return True
     return False
+
+
+def _clashes_with_other(i, recs, c, obs):
+    if default_cfg(c) or not obs.get("wrappers") or len(obs["wrappers"]) != len(recs):
+        mine = initial_names(recs[i], c)
+        return any(mine & initial_names(o, c) for j, o in enumerate(recs) if j != i)
+    ws = obs["wrappers"]
+    return any(set(ws[i]["opts"]) & set(w["opts"]) for j, w in enumerate(ws) if j != i)
 
 
 def oracle(case, obs):
     c = case["case"]
     fails = []
     recs = field_recs(c)
+    clash = clash_exists(c, obs)
     if obs["o"] != "ok":
         if not (obs["o"] == "raise" and obs["exc"] == "ConflictResolutionError"):
             fails.append({"clause": "total", "exc": obs.get("exc"),
                           "detail": f"setup neither succeeded nor raised ConflictResolutionError: {obs}"})
-        if default_cfg(c) and c["mode"] == "NONE" and obs.get("exc") == "ConflictResolutionError" and not clash_exists(c):
-            fails.append({"clause": "none-iff", "detail": "NONE raised although no two fields clash"})
-        if default_cfg(c) and not clash_exists(c):
-            fails.append({"clause": "none-iff", "detail": f"setup failed although no two fields clash: {obs}"})
+        if clash is False:
+            if c["mode"] == "NONE":
+                fails.append({"clause": "none-iff", "detail": f"NONE failed although no two fields clash: {obs}"})
+            else:
+                fails.append({"clause": "no-clash-ok", "detail": f"setup failed although no two fields clash: {obs}"})
         for fe in obs.get("frontends", []):
             if not (fe["o"] == obs["o"] and fe.get("exc") == obs.get("exc")):
                 fails.append({"clause": "front-end", "api": fe["api"],
                               "detail": f"ArgumentParser set-up gives {obs['o']}/{obs.get('exc')} but simple_parsing.{fe['api']}() with the same settings gives {fe}"})
         return fails
-    if default_cfg(c) and c["mode"] == "NONE" and clash_exists(c):
+    if c["mode"] == "NONE" and clash:
         fails.append({"clause": "none-iff", "detail": "a clash exists but NONE mode did not raise"})
     owner = {}
-    for rec, s in zip(recs, obs["sets"]):
+    for rec, s, ng in zip(recs, obs["sets"], obs["negs"]):
         key = ".".join(rec["path"])
         if not s:
             fails.append({"clause": "unique", "detail": f"no action for {key}"})
             continue
-        for o in s:
-            if o in owner:
+        for o in list(s) + list(ng or []):
+            if o in owner and owner[o] != key:
                 fails.append({"clause": "unique", "detail": f"{o} belongs to {owner[o]} and {key}"})
             owner[o] = key
+    want_val = {".".join(r["path"]): PROBED[r["kind"]] for r in recs}
     for p in obs["probes"]:
-        if p["o"] != "ok" or p["changed"] != [[owner[p["opt"]], 7]]:
-            fails.append({"clause": "exact-leaf", "detail": f"[{p['opt']} 7] should change exactly {owner[p['opt']]}: {p}"})
+        tgt = owner.get(p["opt"])
+        if p["o"] != "ok" or p["changed"] != [[tgt, want_val.get(tgt)]]:
+            fails.append({"clause": "exact-leaf", "detail": f"{p['argv']} should change exactly {tgt}: {p}"})
     ref_probe = next((p for p in obs["probes"] if p["o"] == "ok"), None)
     for fe in obs.get("frontends", []):
         want = ref_probe["changed"] if (ref_probe and fe["argv"]) else []
@@ -326,24 +528,34 @@ def oracle(case, obs):
             fails.append({"clause": "front-end", "api": fe["api"],
                           "detail": f"argv {fe['argv']}: the ArgumentParser changes {want}, simple_parsing.{fe['api']}() with the same settings gives {fe}"})
     no_user_prefix = all(not r["prefix"] for r in c["regs"])
-    if no_user_prefix and default_cfg(c):
+    if no_user_prefix:
+        gen, nest = c["cfg"]["gen"], c["cfg"]["nest"]
         for i, (rec, s) in enumerate(zip(recs, obs["sets"])):
             if not s:
                 continue
-            mine = initial_names(rec, c)
-            clashes = any(mine & initial_names(o, c) for j, o in enumerate(recs) if j != i)
-            if not clashes and ("--" if len(rec["name"]) > 1 else "-") + rec["name"] not in s:
-                fails.append({"clause": "bare", "detail": f"{'.'.join(rec['path'])} clashes with nothing but lost its bare name: {s}"})
             path = rec["path"]
+            # bare: a field that clashes with nothing keeps its bare name (default cfg: -x/--name is still there; any
+            # cfg: its option strings are exactly the ones it had before resolution)
+            if not _clashes_with_other(i, recs, c, obs):
+                if default_cfg(c) and ("--" if len(rec["name"]) > 1 else "-") + rec["name"] not in s:
+                    fails.append({"clause": "bare", "detail": f"{'.'.join(path)} clashes with nothing but lost its bare name: {s}"})
+                ws = obs.get("wrappers")
+                if ws and len(ws) == len(recs) and sorted(set(ws[i]["opts"])) != s:
+                    fails.append({"clause": "bare", "detail": f"{'.'.join(path)} clashes with nothing but its option strings changed: {ws[i]['opts']} -> {s}"})
+            # suffix: every generated name is a dotted suffix of the destination path (the full path under EXPLICIT);
+            # dash variants spell '_' as '-'; NESTED/BOTH add the full path (without its root under WITHOUT_ROOT)
             for o in s:
-                body = o.lstrip("-")
+                body = o.lstrip("-").replace("-", "_")
                 ok = False
-                for last in [rec["name"]] + [a.lstrip("-") for a in rec["aliases"]]:
+                for is_name, last in [(True, rec["name"])] + [(False, a.lstrip("-")) for a in rec["aliases"]]:
                     comps = path[:-1] + [last]
                     sufs = [".".join(comps[k:]) for k in range(len(comps))]
-                    if c["mode"] == "EXPLICIT":
-                        sufs = [sufs[0], sufs[-1]]
-                    if body in sufs:
+                    allowed = [sufs[0], sufs[-1]] if c["mode"] == "EXPLICIT" else list(sufs)
+                    if gen != "FLAT" and is_name:
+                        allowed.append(sufs[1] if nest == "WITHOUT_ROOT" else sufs[0])
+                    if gen == "NESTED" and is_name:
+                        allowed = [sufs[1] if nest == "WITHOUT_ROOT" else sufs[0]]
+                    if body in allowed:
                         ok = True
                 if not ok:
                     fails.append({"clause": "suffix", "detail": f"option {o} of {'.'.join(path)} is not a dotted suffix of its destination path"})
@@ -351,16 +563,25 @@ def oracle(case, obs):
 
 
 def nontrivial(case, obs):
-    return clash_exists(case["case"])
+    return bool(clash_exists(case["case"], obs))
 
 
 def tags(case, obs):
     c = case["case"]
-    t = [f"mode:{c['mode']}", f"regs:{len(c['regs'])}", f"classes:{len(c['classes'])}", f"fields:{len(field_recs(c))}",
-         "out:" + (obs["o"] if obs["o"] == "ok" else str(obs.get("exc"))), f"clash:{clash_exists(c)}",
-         f"userprefix:{any(r['prefix'] for r in c['regs'])}", f"defaultcfg:{default_cfg(c)}"]
+    recs = field_recs(c)
+    pf = [r["prefix"] for r in c["regs"] if r["prefix"]]
+    t = [f"mode:{c['mode']}", f"regs:{len(c['regs'])}", f"classes:{len(c['classes'])}",
+         f"fields:{len(recs) if len(recs) < 10 else '10+'}",
+         "out:" + (obs["o"] if obs["o"] == "ok" else str(obs.get("exc"))), f"clash:{clash_exists(c, obs)}",
+         "userprefix:" + ("none" if not pf else "dotted" if any("." in p for p in pf) else "plain"),
+         f"defaultcfg:{default_cfg(c)}", f"gen:{c['cfg']['gen']}", f"dash:{c['cfg']['dash']}",
+         f"alias:{any(r['aliases'] for r in recs)}", f"bool:{any(r['kind'] == 'bool' for r in recs)}",
+         f"depth:{max((r['level'] for r in recs), default=0)}",
+         "rounds:" + (str(obs.get("rounds", 0)) if obs.get("rounds", 0) < 5 else "5-48" if obs.get("rounds", 0) < 49 else str(obs.get("rounds")))]
     if obs["o"] == "ok":
         t.append(f"maxdots:{max((o.count('.') for s in obs['sets'] if s for o in s), default=0)}")
+        n = len(obs["probes"])
+        t.append("probes:" + ("none" if n == 0 else str(n) if n < 4 else "4-9" if n < 10 else "10+"))
     return t
 
 
@@ -381,12 +602,14 @@ def shrink(case):
             regs = [dict(x) for x in c["regs"]]
             regs[i]["prefix"] = ""
             yield {"op": case["op"], "case": dict(c, regs=regs)}
+    if not default_cfg(c):
+        yield {"op": case["op"], "case": dict(c, cfg=dict(DEFAULT_CFG))}
 
 
 def _help_clash(case, obs, fail):
     """D20: a field (or alias) spelled like the built-in -h/--help: setup raises argparse.ArgumentError
     ('conflicting option string: -h/--help') instead of ConflictResolutionError."""
-    if fail.get("clause") not in ("total", "none-iff") or obs.get("exc") != "ArgumentError":
+    if fail.get("clause") not in ("total", "none-iff", "no-clash-ok") or obs.get("exc") != "ArgumentError":
         return False
     msg = obs.get("msg", "")
     if not (msg.endswith("conflicting option string: -h") or msg.endswith("conflicting option string: --help")):
@@ -396,4 +619,13 @@ def _help_clash(case, obs, fail):
     return bool(names & {"h", "help"})
 
 
-FINDINGS = {"C03-help-clash": _help_clash}
+def _neg_clash(case, obs, fail):
+    """the --no<x> flags of a bool leaf x are added by BooleanOptionalAction at add_argument time, after conflict
+    resolution: a field (or alias) spelled no<x> collides with them and setup raises argparse.ArgumentError
+    ('conflicting option string: --…no<x>') instead of ConflictResolutionError / a resolved parser."""
+    if fail.get("clause") not in ("total", "none-iff", "no-clash-ok"):
+        return False
+    return _neg_clash_obs(case, obs)
+
+
+FINDINGS = {"C03-help-clash": _help_clash, "C03-neg-clash": _neg_clash}
